@@ -1179,6 +1179,8 @@ def inline_foreign_tail_calls(P, fn, stmts):
                     return None
                 if mode == 'tail-stmt' and isinstance(x, ast.Return) and x.value is not None and not (isinstance(x.value, ast.Constant) and x.value.value is None):
                     return None
+        if mode == 'tail-stmt' and c is not owner:
+            return None         # only a hand-over to another instance of the caller's own class (`active_system._register(a)` in a static method of System)
                 # one level: the body must not itself contain a call that this pass would expand
         bind = dict(bind, self=call.func.value)
         ren = {nm: f'{nm}__{fd.name.strip("_")}' for nm in stored}
